@@ -42,8 +42,9 @@ def mc_configs(tier):
             "conn": dict(base, PRE="none", MaxConn=2, MaxChan=0, CLOSE=False, IVERS={"none"}, DELAYS={0},
                          ORDS={"UNORDERED"}, CHVERS={"v2"}, PORTS={"mock"}),
             # channel handshakes over an OPEN connection, crossing INITs (2 attempts per side)
+            # (the application on the TRY side negotiates another -- the empty -- version: AppTryVersion)
             "chan": dict(base, PRE="conn", MaxConn=0, MaxChan=2, CLOSE=False, IVERS={"none"}, DELAYS={0},
-                         ORDS={"UNORDERED"}, CHVERS={"v2"}, PORTS={"mock"}),
+                         ORDS={"UNORDERED"}, CHVERS={"neg:"}, PORTS={"mock"}),
             # one channel attempt per side with both ports and closing in every state
             "close": dict(base, PRE="conn", MaxConn=0, MaxChan=1, CLOSE=True, IVERS={"none"}, DELAYS={0},
                           ORDS={"ORDERED"}, CHVERS={"v2"}, PORTS={"mock", "mock2"}),
@@ -52,9 +53,9 @@ def mc_configs(tier):
         "conn": dict(base, PRE="none", MaxConn=2, MaxChan=0, CLOSE=False, IVERS={"none", "U"}, DELAYS={0, 1},
                      ORDS={"UNORDERED"}, CHVERS={"v2"}, PORTS={"mock"}),
         "chan": dict(base, PRE="conn", MaxConn=0, MaxChan=2, CLOSE=False, IVERS={"none"}, DELAYS={0},
-                     ORDS={"ORDERED", "UNORDERED"}, CHVERS={"v2"}, PORTS={"mock"}),
+                     ORDS={"ORDERED", "UNORDERED"}, CHVERS={"neg:"}, PORTS={"mock"}),
         "close": dict(base, PRE="conn", MaxConn=0, MaxChan=1, CLOSE=True, IVERS={"none"}, DELAYS={0},
-                      ORDS={"ORDERED", "UNORDERED"}, CHVERS={"v2", ""}, PORTS={"mock", "mock2"}),
+                      ORDS={"ORDERED", "UNORDERED"}, CHVERS={"v2", "neg:v3"}, PORTS={"mock", "mock2"}),
     }
 
 
@@ -202,7 +203,7 @@ def versions_thread(tier, binary_box, workdir, result, errors):
 def sched_constants(tier, depth, outdir, tp):
     return dict(TP=tp, MaxH=3 * depth, MaxConn=4, MaxChan=4, DTS={1, 2}, FREEZE=True, CLOSE=True,
                 IVERS={"none", "OU", "U", "O", "UO"}, DELAYS={0, 1}, ORDS={"ORDERED", "UNORDERED"},
-                CHVERS={"", "v2", "mock-version"}, PORTS={"mock", "mock2"},
+                CHVERS={"", "v2", "mock-version", "neg:", "neg:v3"}, PORTS={"mock", "mock2"},
                 Depth=depth, OutDir=outdir, HONEST_PCT=55, FULL_PCT=12, MACRO_PCT=28, MUT_PCT=15, OOO_PCT=8)
 
 
@@ -238,6 +239,249 @@ def gen_schedules(tier, seed, workdir):
         raise vk.Infra("schedule generation produced only %d schedules" % len(scheds))
     return scheds
 
+
+
+# ------------------------------------------------------------------------------------------ canonical schedules
+
+ORD_F, UNORD_F = "ORDER_ORDERED", "ORDER_UNORDERED"
+
+
+def _ver(*f, **kw):
+    return {"id": kw.get("id", "1"), "f": list(f)}
+
+
+def _other(c):
+    return "B" if c == "A" else "A"
+
+
+class _Canon:
+    """Builder of hand-written canonical schedules, executed on every run in front of the random walks: directed
+    boundary cases of input classes the walks reach rarely or never (a counterparty that is not ibc-go, applications
+    that negotiate another channel version, restricted connection versions).  It only tracks heights and identifier
+    counters to build well-formed messages; it predicts no result -- every step is judged by TLC like any other."""
+
+    def __init__(self, sid):
+        self.s = {"id": sid, "kind": "HS", "tp": BIG_TP, "acts": []}
+        self.h = {"A": 1, "B": 1}
+        self.nconn = {"A": 0, "B": 0}
+        self.nchan = {"A": 0, "B": 0}
+
+    def act(self, a, c, **kw):
+        self.h[c] += 1
+        self.s["acts"].append(dict({"a": a, "c": c, "dt": 1}, **kw))
+
+    def sync(self, c):
+        """block on the counterparty, update c's client to it -> proof height showing the counterparty's current state"""
+        o = _other(c)
+        self.act("Block", o)
+        p = self.h[o]
+        self.act("Update", c, p=p)
+        return p
+
+    # connection ends / messages
+    def conn_end(self, c, st, cpconn, vers, delay=0):
+        return {"st": st, "cl": "cl" + c, "cpcl": "cl" + _other(c), "cpconn": cpconn, "pfx": "ibc", "vers": vers, "delay": delay}
+
+    def conn_init(self, c, ivers):
+        n = self.nconn[c]
+        self.act("ConnOpenInit", c, cl="cl" + c, cpcl="cl" + _other(c), pfx="ibc", ivers=ivers, delay=0)
+        self.nconn[c] += 1
+        return n
+
+    def conn_try(self, c, cpconn, cpvers):
+        m = self.nconn[c]
+        ph = self.sync(c)
+        self.act("ConnOpenTry", c, cl="cl" + c, cpcl="cl" + _other(c), cpconn=cpconn, pfx="ibc", cpvers=cpvers, delay=0, ph=ph)
+        self.nconn[c] += 1
+        return m
+
+    def conn_ack(self, c, conn, cpconn, ver):
+        ph = self.sync(c)
+        self.act("ConnOpenAck", c, conn=conn, ver=ver, cpconn=cpconn, ph=ph)
+
+    def conn_confirm(self, c, conn):
+        ph = self.sync(c)
+        self.act("ConnOpenConfirm", c, conn=conn, ph=ph)
+
+    def full_conn(self, ivers, picked):
+        """honest handshake A -> B; ivers = [] (default list) or [v]; picked = the version B must pick.  A stray INIT
+        end on B first: the two ends of the connection get different identifiers (A: connection-0, B: connection-1)"""
+        self.conn_init("B", [])
+        n = self.conn_init("A", ivers)
+        m = self.conn_try("B", n, ivers if ivers else [_ver(ORD_F, UNORD_F)])
+        self.conn_ack("A", n, m, picked)
+        self.conn_confirm("B", m)
+        return n, m
+
+    # channel ends / messages
+    def chan_end(self, port, st, ordr, cpport, cpchan, hop, ver):
+        return {"port": port, "st": st, "ord": ordr, "cpport": cpport, "cpchan": cpchan, "hops": [hop], "ver": ver}
+
+    def chan_init(self, c, ordr, hop, chver, ok=True, port="mock", cpport="mock"):
+        n = self.nchan[c]
+        self.act("ChanOpenInit", c, port=port, ord=ordr, hops=[hop], cpport=cpport, chver=chver)
+        if ok:
+            self.nchan[c] += 1
+        return n
+
+    def chan_try(self, c, ordr, hop, cpchan, cpver, ok=True, port="mock", cpport="mock"):
+        m = self.nchan[c]
+        ph = self.sync(c)
+        self.act("ChanOpenTry", c, port=port, ord=ordr, hops=[hop], cpport=cpport, cpchan=cpchan, cpver=cpver, ph=ph)
+        if ok:
+            self.nchan[c] += 1
+        return m
+
+    def chan_ack(self, c, chan, cpchan, cpver, port="mock"):
+        ph = self.sync(c)
+        self.act("ChanOpenAck", c, port=port, chan=chan, cpchan=cpchan, cpver=cpver, ph=ph)
+
+    def chan_relay(self, name, c, chan, port="mock"):
+        ph = self.sync(c)
+        self.act(name, c, port=port, chan=chan, ph=ph)
+
+
+def canon_schedules():
+    out = []
+    DEF = _ver(ORD_F, UNORD_F)
+    U, O, UO = _ver(UNORD_F), _ver(ORD_F), _ver(UNORD_F, ORD_F)
+
+    # (1) ACK side of the version negotiation against a counterparty that is not ibc-go: the counterparty's TRYOPEN end
+    #     carries a version that is not within the INIT proposal (wider / disjoint / reordered / other identifier), or
+    #     is in another state; the proofs are genuine.  Last: a version inside the proposal (accepted).
+    for name, ivers, picked, forged, inside in [
+            ("U", [U], U, [DEF, O, UO, _ver(ORD_F, UNORD_F, id="2")], U),
+            ("O", [O], O, [DEF, U, UO, _ver(ORD_F, id="2")], O),
+            ("default", [], DEF, [_ver(ORD_F, UNORD_F, id="2"), _ver(ORD_F, "X"), _ver()], U)]:
+        k = _Canon("CANON-ackver-%s" % name)
+        n = k.conn_init("A", ivers)
+        m = k.conn_try("B", n, ivers if ivers else [DEF])
+        for st in ("INIT", "OPEN"):                       # counterparty end in the wrong handshake state
+            k.act("ForeignConn", "B", conn=m, e=k.conn_end("B", st, n, [picked]))
+            k.conn_ack("A", n, m, picked)
+        for fv in forged:
+            k.act("ForeignConn", "B", conn=m, e=k.conn_end("B", "TRYOPEN", n, [fv]))
+            k.conn_ack("A", n, m, fv)
+        k.act("ForeignConn", "B", conn=m, e=k.conn_end("B", "TRYOPEN", n, [inside]))
+        k.conn_ack("A", n, m, inside)
+        k.conn_confirm("B", m)
+        out.append(k.s)
+
+    # (1b) TRY side of the negotiation on version LISTS only a counterparty that is not ibc-go can store in its INIT end
+    #      (several versions, other identifiers first, duplicates, reordered / unknown / empty feature sets)
+    k = _Canon("CANON-tryvers")
+    X2 = _ver(ORD_F, UNORD_F, id="2")
+    n = k.conn_init("A", [])
+    for lst in ([U, DEF], [X2, DEF], [DEF, DEF], [UO], [_ver(ORD_F, "X")], [_ver()], [X2], [_ver("X"), O], [U, O],
+                [_ver(UNORD_F, UNORD_F)], [X2, UO, DEF]):
+        k.act("ForeignConn", "A", conn=n, e=k.conn_end("A", "INIT", -1, lst))
+        k.conn_try("B", n, lst)
+    out.append(k.s)
+
+    # (1c) CONFIRM against an OPEN end a foreign counterparty committed with one field off; last the matching end
+    k = _Canon("CANON-confirmpeer")
+    n = k.conn_init("A", [U])
+    m = k.conn_try("B", n, [U])
+    k.conn_ack("A", n, m, U)
+    good = k.conn_end("A", "OPEN", m, [U])
+    for fld, val in (("st", "INIT"), ("st", "TRYOPEN"), ("vers", [DEF]), ("vers", [O]), ("vers", [U, U]), ("delay", 1),
+                     ("cpconn", m + 1), ("cpcl", "clX"), ("cl", "clB")):
+        k.act("ForeignConn", "A", conn=n, e=dict(good, **{fld: val}))
+        k.conn_confirm("B", m)
+    k.act("ForeignConn", "A", conn=n, e=good)
+    k.conn_confirm("B", m)
+    out.append(k.s)
+
+    # (2) channel ordering against restricted connection versions, INIT side and TRY side (the INIT end with the
+    #     ordering the connection does not carry can only be committed by a counterparty that is not ibc-go)
+    for name, v, has, lacks in [("O", O, "ORDERED", "UNORDERED"), ("U", U, "UNORDERED", "ORDERED")]:
+        k = _Canon("CANON-ordering-%s" % name)
+        n, m = k.full_conn([v], v)
+        k.chan_init("A", lacks, n, "v2", ok=False)
+        k.chan_init("B", lacks, m, "v2", ok=False)
+        ca = k.chan_init("A", has, n, "v2")
+        k.act("ForeignChan", "A", chan=ca, e=k.chan_end("mock", "INIT", lacks, "mock", -1, n, "v2"))
+        k.chan_try("B", lacks, m, ca, "v2", ok=False)
+        k.act("ForeignChan", "A", chan=ca, e=k.chan_end("mock", "INIT", has, "mock", -1, n, "v2"))
+        cb = k.chan_try("B", has, m, ca, "v2")
+        k.chan_ack("A", ca, cb, "v2")
+        k.chan_relay("ChanOpenConfirm", "B", cb)
+        out.append(k.s)
+
+    # (3) applications that negotiate another channel version on TRY (also the empty string): the INIT side must end
+    #     up with the version proven for the TRYOPEN end
+    for ordr in ("UNORDERED", "ORDERED"):
+        k = _Canon("CANON-negver-%s" % ordr)
+        n, m = k.full_conn([], DEF)
+        for chver, neg in (("neg:", ""), ("neg:v3", "v3")):
+            ca = k.chan_init("A", ordr, n, chver)
+            cb = k.chan_try("B", ordr, m, ca, chver)
+            k.chan_ack("A", ca, cb, chver)                # the version A proposed is not the one B holds
+            k.chan_ack("A", ca, cb, neg)
+            k.chan_relay("ChanOpenConfirm", "B", cb)
+        out.append(k.s)
+
+    # (4) channel ACK / CONFIRM / CLOSE-CONFIRM against counterparty ends a foreign chain committed with ONE field off
+    #     (state, ordering, version, counterparty identifiers, hops); proofs are genuine; last the matching end
+    #     (accepted).  First the TRY side against INIT ends with one field off.
+    k = _Canon("CANON-chanpeer")
+    n, m = k.full_conn([], DEF)
+    ca = k.chan_init("A", "ORDERED", n, "v2")
+    ainit = k.chan_end("mock", "INIT", "ORDERED", "mock", -1, n, "v2")
+    for fld, val in (("st", "TRYOPEN"), ("st", "OPEN"), ("st", "CLOSED"), ("ord", "UNORDERED"), ("ver", "v3"), ("cpchan", 0),
+                     ("cpport", "mock2"), ("hops", [m])):   # TRY with the message an honest relayer builds for the INIT end
+        k.act("ForeignChan", "A", chan=ca, e=dict(ainit, **{fld: val}))
+        k.chan_try("B", "ORDERED", m, ca, "v2", ok=False)
+    k.act("ForeignChan", "A", chan=ca, e=ainit)
+    cb = k.chan_try("B", "ORDERED", m, ca, "v2")
+    good = k.chan_end("mock", "TRYOPEN", "ORDERED", "mock", ca, m, "v2")
+    for fld, val in (("st", "INIT"), ("st", "OPEN"), ("st", "CLOSED"), ("ord", "UNORDERED"), ("ver", "v3"), ("cpchan", ca + 1),
+                     ("cpport", "mock2"), ("hops", [m + 1])):
+        k.act("ForeignChan", "B", chan=cb, e=dict(good, **{fld: val}))
+        k.chan_ack("A", ca, cb, "v2")
+    k.act("ForeignChan", "B", chan=cb, e=good)
+    k.chan_ack("A", ca, cb, "v2")
+    k.chan_relay("ChanOpenConfirm", "B", cb)
+    # both OPEN: close-confirm on B needs A's end CLOSED
+    agood = k.chan_end("mock", "OPEN", "ORDERED", "mock", cb, n, "v2")
+    for e in (dict(agood, st="TRYOPEN"), dict(agood, st="INIT"), dict(agood, st="CLOSED", ord="UNORDERED"),
+              dict(agood, st="CLOSED", ver="v3"), dict(agood, st="CLOSED", cpchan=cb + 1)):
+        k.act("ForeignChan", "A", chan=ca, e=e)
+        k.chan_relay("ChanCloseConfirm", "B", cb)
+    k.act("ForeignChan", "A", chan=ca, e=dict(agood, st="CLOSED"))
+    k.chan_relay("ChanCloseConfirm", "B", cb)
+    k.chan_relay("ChanCloseConfirm", "B", cb)             # CLOSED is terminal
+    k.chan_relay("ChanOpenConfirm", "B", cb)
+    out.append(k.s)
+
+    # (5) close-confirm on ends that are not OPEN yet (INIT end: no counterparty channel known; TRYOPEN end) while the
+    #     counterparty end is not CLOSED, then CLOSED; opening steps on ends that were closed meanwhile, with a valid
+    #     proof of the counterparty end (CLOSED is terminal)
+    k = _Canon("CANON-closeearly")
+    n, m = k.full_conn([], DEF)
+    ca = k.chan_init("A", "UNORDERED", n, "v2")
+    k.chan_relay("ChanCloseConfirm", "A", ca)             # INIT end, no counterparty end exists
+    cb = k.chan_try("B", "UNORDERED", m, ca, "v2")
+    k.chan_relay("ChanCloseConfirm", "A", ca)             # INIT end, counterparty TRYOPEN
+    k.chan_relay("ChanCloseConfirm", "B", cb)             # TRYOPEN end, counterparty INIT
+    k.chan_ack("A", ca, cb, "v2")
+    k.act("ChanCloseInit", "A", port="mock", chan=ca)
+    k.chan_relay("ChanOpenConfirm", "B", cb)              # counterparty CLOSED, not OPEN
+    k.chan_relay("ChanCloseConfirm", "B", cb)             # TRYOPEN end, counterparty CLOSED
+    k.chan_relay("ChanOpenConfirm", "B", cb)
+    # own TRYOPEN end closed by the application, then the valid confirm arrives (counterparty is OPEN)
+    ca = k.chan_init("A", "ORDERED", n, "v2")
+    cb = k.chan_try("B", "ORDERED", m, ca, "v2")
+    k.chan_ack("A", ca, cb, "v2")
+    k.act("ChanCloseInit", "B", port="mock", chan=cb)
+    k.chan_relay("ChanOpenConfirm", "B", cb)
+    # own INIT end closed by the application, then the valid ack arrives (counterparty is TRYOPEN)
+    ca = k.chan_init("A", "UNORDERED", n, "")
+    cb = k.chan_try("B", "UNORDERED", m, ca, "mock-version")
+    k.act("ChanCloseInit", "A", port="mock", chan=ca)
+    k.chan_ack("A", ca, cb, "mock-version")
+    out.append(k.s)
+    return out
 
 # ------------------------------------------------------------------------------------------ (c) drive, (d) validate
 
@@ -338,13 +582,17 @@ def coverage_of(groups):
     sigs = collections.defaultdict(set)
     for (kind, tp), lines in groups.items():
         prev = None
+        foreign = set()
         for line in lines:
             d = json.loads(line)
             a = d["a"]
             if a["a"] == "Init":
                 prev = d
+                foreign = set()
                 continue
             cov["HS:%s:%s" % (a["a"], d["res"])] += 1
+            if a["a"] in ("ForeignConn", "ForeignChan") and d["res"] == "ok":
+                foreign.add(a["c"])
             st = d["st"]
             if prev is not None:
                 pc = prev["st"]["ch"][a["c"]]
@@ -354,6 +602,17 @@ def coverage_of(groups):
                     known = a["ph"] in pc["cons"]
                     stale = known and a["ph"] < max(pc["cons"])
                     cov["HS:proof-height-%s:%s" % ("stale" if stale else "latest" if known else "unknown", d["res"])] += 1
+                if a["a"] == "ChanOpenAck":
+                    for e in pc["cur"]["chans"]:
+                        if e["n"] == a.get("chan") and e["st"] == "INIT" and e["ver"].startswith("neg:"):
+                            cov["HS:ack-of-version-renegotiated-on-TRY:%s" % d["res"]] += 1
+                if a["a"] == "ConnOpenAck" and foreign:
+                    for e in pc["cur"]["conns"]:
+                        if e["n"] == a.get("conn") and e["st"] == "INIT":
+                            inside = any(v["id"] == a["ver"]["id"] and a["ver"]["f"] and set(a["ver"]["f"]) <= set(v["f"]) for v in e["vers"])
+                            cov["HS:ack-of-foreign-version-%s-the-proposal:%s" % ("inside" if inside else "outside", d["res"])] += 1
+                if a["a"] in ("ChanOpenAck", "ChanOpenConfirm", "ChanCloseConfirm", "ChanOpenTry") and foreign:
+                    cov["HS:%s-after-foreign-write:%s" % (a["a"], d["res"])] += 1
                 if a.get("cl") == "localhost":
                     cov["HS:localhost:%s" % d["res"]] += 1
                 if a["a"] in ("ChanOpenInit", "ChanOpenTry") and len(a.get("hops", [])) == 1:
@@ -388,18 +647,23 @@ def coverage_of(groups):
 FLOORS = {
     "C12": ["HS:ChanOpenInit:ok", "HS:ChanOpenTry:ok", "HS:ChanOpenTry:err", "HS:ChanOpenAck:ok", "HS:ChanOpenAck:err",
             "HS:ChanOpenConfirm:ok", "HS:ChanOpenConfirm:err", "HS:ChanCloseInit:ok", "HS:ChanCloseConfirm:err",
-            "HS:both-chan-ends-OPEN", "HS:crossing-chan-INITs", "HS:proof-height-stale:", "HS:proof-height-unknown:err"],
+            "HS:both-chan-ends-OPEN", "HS:crossing-chan-INITs", "HS:proof-height-stale:", "HS:proof-height-unknown:err",
+            "HS:ChanCloseConfirm:ok", "HS:both-chan-ends-CLOSED", "HS:ForeignChan:ok",
+            "HS:ack-of-version-renegotiated-on-TRY:ok", "HS:ack-of-version-renegotiated-on-TRY:err",
+            "HS:ChanOpenAck-after-foreign-write:err", "HS:ChanCloseConfirm-after-foreign-write:err"],
     "C13": ["HS:ConnOpenInit:ok", "HS:ConnOpenTry:ok", "HS:ConnOpenTry:err", "HS:ConnOpenAck:ok",
             "HS:ConnOpenAck:err", "HS:ConnOpenConfirm:ok", "HS:ConnOpenConfirm:err", "HS:both-conn-ends-OPEN",
-            "HS:proof-height-stale:", "VT:pick:ok", "VT:pick:no", "VT:supported:ok",
+            "HS:proof-height-stale:", "HS:ForeignConn:ok", "HS:ack-of-foreign-version-outside-the-proposal:err",
+            "HS:ack-of-foreign-version-inside-the-proposal:ok", "-ordering-not-in-connection-version:err",
+            "HS:ChanOpenTry-after-foreign-write:err", "VT:pick:ok", "VT:pick:no", "VT:supported:ok",
             "VT:supported:no", "VT:inter:", "VT:verify:ok", "VT:verify:no"],
     "C15": ["HS:ConnOpenInit:ok", "HS:ConnOpenTry:err", "HS:ChanOpenInit:ok", "HS:ChanOpenTry:err"],
     "C21": ["HS:Update:ok", "HS:attempt-through-Frozen-client:err"],
 }
 # rarer situations: measured 1..8 times in quick runs (26 walks), so only a thorough run (234 walks) must reach them
 THOROUGH_FLOORS = {
-    "C12": ["HS:ChanCloseConfirm:ok", "HS:both-chan-ends-CLOSED"],
-    "C13": ["HS:ConnOpenInit:err", "HS:crossing-conn-INITs", "HS:localhost:err", "-ordering-not-in-connection-version:err"],
+    "C12": [],
+    "C13": ["HS:ConnOpenInit:err", "HS:crossing-conn-INITs", "HS:localhost:err"],
 }
 
 
@@ -421,7 +685,7 @@ def run_family(tier, seed, binary=None):
     finally:
         box["ready"].set()
     try:
-        scheds = gen_schedules(tier, seed, workdir)
+        scheds = canon_schedules() + gen_schedules(tier, seed, workdir)
         vk.log("generated %d schedules in %.1fs" % (len(scheds), time.time() - t0))
         groups = drive(binary, scheds, workdir, "main", sizes(tier)["shards"])
         vk.log("drove %d schedules (%.1fs)" % (len(scheds), time.time() - t0))
